@@ -541,7 +541,8 @@ fn gen_scalar(rng: &mut Rng, s: Sc) -> Tok {
 }
 
 fn gen_string(rng: &mut Rng, maxlen: usize) -> Tok {
-    let len = rng.below(maxlen + 1);
+    // the full length n of char[n] is legal and a boundary worth meeting often
+    let len = if rng.chance(1, 6) { maxlen } else { rng.below(maxlen + 1) };
     let mut s = String::new();
     while s.len() < len {
         match rng.below(12) {
